@@ -4,7 +4,7 @@ import RichModel.Drv.Proto
 Driver handlers for property C06 (Style algebra / text round trip / hashing).
 
 Wire formats
-* flags   : six characters 0/1 in the field order of `Variant`
+* flags   : six characters 0/1 in the field order of `StyleVariant`
             (rgbValueError addHash fromColorHash withoutColorHash updateLinkHash updateLinkDef)
 * string  : space separated decimal code points ("" = empty)
 * optstr  : `-` (None) or `=` followed by a string
@@ -19,7 +19,7 @@ Any string containing a code point >= 128 makes the whole request `unmodelled`.
 namespace RichModel.Drv.C06
 open RichModel RichModel.Proto RichModel.AsciiStr
 
-def decFlags (s : String) : Option Variant :=
+def decFlags (s : String) : Option StyleVariant :=
   match s.toList.map (· == '1') with
   | [a, b, c, d, e, f] => some ⟨a, b, c, d, e, f⟩
   | _ => none
@@ -87,7 +87,7 @@ def encStyle (s : Style) : String :=
   encColor s.color ++ "|" ++ encColor s.bgcolor ++ "|" ++ toString s.attributes ++ "|" ++
     toString s.setAttributes ++ "|" ++ encOptS s.link
 
-def encState (v : Variant) (s : Style) : String :=
+def encState (v : StyleVariant) (s : Style) : String :=
   encStyle s ++ "|n" ++ encBool s.isNull ++ "|d" ++ encOptS s.styleDef ++ "|s" ++ encStr s.str ++
     "|a" ++ String.join ((List.range 13).map fun i => encTri (s.attr i)) ++
     "|h" ++ encBool (decide (s.hashKey = s.fieldsKey)) ++ "|w" ++ encBool (Style.wf v s)
@@ -157,7 +157,7 @@ end
 
 mutual
 /-- Evaluate a route with the model's constructors, left to right (first exception wins). -/
-partial def evalRoute (v : Variant) : Route → Except StyleErr Style
+partial def evalRoute (v : StyleVariant) : Route → Except StyleErr Style
   | .null => .ok Style.null
   | .init c b kw l => Style.init v c b kw l
   | .fromColor c b => .ok (Style.fromColor v c b)
@@ -178,7 +178,7 @@ partial def evalRoute (v : Variant) : Route → Except StyleErr Style
   | .chain rs => do
     let ss ← evalRoutes v rs
     Style.chain v ss
-partial def evalRoutes (v : Variant) : List Route → Except StyleErr (List Style)
+partial def evalRoutes (v : StyleVariant) : List Route → Except StyleErr (List Style)
   | [] => .ok []
   | r :: rs => do
     let s ← evalRoute v r
